@@ -22,8 +22,13 @@ static int n_fail = 0;
 #define __CPROVER_assume(c) do { if (!(c)) { std::printf("SKIP: assumption does not hold natively: %s\n", #c); return 0; } } while (0)
 #define CANARY_POINT ((void)0)
 #define HAVOC_BUFS ((void)0)
-#define MAKE_SV(v) do { (v).p = g_buf + (BUF_N - (v).n); } while (0)
-#define MAKE_SV2(v) do { (v).p = g_buf2 + (BUF_N - (v).n); } while (0)
+#ifdef BUF_START
+#define BUF_AT(buf, n) (buf)
+#else
+#define BUF_AT(buf, n) ((buf) + (BUF_N - (n)))
+#endif
+#define MAKE_SV(v) do { (v).p = BUF_AT(g_buf, (v).n); } while (0)
+#define MAKE_SV2(v) do { (v).p = BUF_AT(g_buf2, (v).n); } while (0)
 #define OFF(base) ((size_t)(((const char*)(base)) - (((const char*)(base)) >= g_buf2 && ((const char*)(base)) <= g_buf2 + BUF_N ? g_buf2 : g_buf)))
 #define GK_IN(base, lo, hi) (g_k >= OFF(base) + (lo) && g_k < OFF(base) + (hi))
 #define GK_AT(base) ((base)[g_k - OFF(base)])
@@ -137,7 +142,7 @@ def buf_init(w):
 def program(o, info, w, spec_lines=None, fn_node=None, harness_text=None):
     """Return full C++ source for the native replay of obligation o with witness w, or None."""
     inc = ''.join('#include "%s/%s"\n' % (VERIF, i) for i in o.includes)
-    head = '#include "/repo/src/ada.cpp"\n#include <cstdio>\n#include <string>\n#include <string_view>\n#define BUF_N %d\n' % (o.bufn or BUFN)
+    head = '#include "/repo/src/ada.cpp"\n#include <cstdio>\n#include <string>\n#include <string_view>\n#define BUF_N %d\n%s' % (o.bufn or BUFN, '#define BUF_START 1\n' if 'BUF_START' in o.defines else '')
     head += PRELUDE + inc
     head += shims(info.get('functions', []) + list(o.roots), set(info.get('globals_q', [])) | set(o.globals), info.get('tables', '')) + '\n'
     head += witness_defines(w) + '\n'
@@ -158,7 +163,7 @@ def program(o, info, w, spec_lines=None, fn_node=None, harness_text=None):
                 n = sc.get(name + '.n')
                 if n is None:
                     return None
-                decl.append('  sv_t %s = {%s + (BUF_N - %s), %s};' % (name, buf, n, n))
+                decl.append('  sv_t %s = {BUF_AT(%s, %s), %s};' % (name, buf, n, n))
                 args.append('&' + name if False else name)
                 if mode == 'ptr':
                     return None
